@@ -140,6 +140,79 @@ fn run_case(line: &str) -> String {
     }
 }
 
+/// Free-running race search (C03, no scheduler, no model): the last two handles of a pinged source are dropped by two threads released at
+/// the same instant, over and over. Whatever the schedule, the outstanding ping is delivered once and the source then removes itself.
+/// Input: number of rounds. Output: rounds=<n> lost_ping=<round|-> extra_callback=<round|-> not_removed=<round|->
+fn run_stress_case(line: &str) -> String {
+    use std::sync::atomic::{AtomicUsize, Ordering};
+    use std::sync::mpsc;
+    let rounds: usize = line.trim().parse().unwrap_or(1000);
+    let arrived = Arc::new(AtomicUsize::new(0));
+    let (done_tx, done_rx) = mpsc::channel::<()>();
+    let mut work_tx = Vec::new();
+    let mut threads = Vec::new();
+    for _ in 0..2 {
+        let (tx, rx) = mpsc::channel::<(usize, Ping)>();
+        work_tx.push(tx);
+        let arrived = arrived.clone();
+        let done_tx = done_tx.clone();
+        threads.push(std::thread::spawn(move || {
+            while let Ok((round, ping)) = rx.recv() {
+                arrived.fetch_add(1, Ordering::SeqCst);
+                while arrived.load(Ordering::SeqCst) < 2 * (round + 1) {
+                    std::hint::spin_loop();
+                }
+                drop(ping);
+                let _ = done_tx.send(());
+            }
+        }));
+    }
+    let mut event_loop: EventLoop<'static, u32> = EventLoop::try_new().expect("loop");
+    let handle = event_loop.handle();
+    let (mut lost, mut extra, mut kept) = (None, None, None);
+    for round in 0..rounds {
+        let (ping, source) = make_ping().expect("ping");
+        let token = handle.insert_source(source, |(), &mut (), n: &mut u32| *n += 1).expect("insert");
+        let other = ping.clone();
+        ping.ping();
+        let _ = work_tx[0].send((round, ping));
+        let _ = work_tx[1].send((round, other));
+        let _ = done_rx.recv();
+        let _ = done_rx.recv();
+        let mut n = 0u32;
+        let _ = event_loop.dispatch(Some(Duration::ZERO), &mut n);
+        if n == 0 && lost.is_none() {
+            lost = Some(round);
+        }
+        let _ = event_loop.dispatch(Some(Duration::ZERO), &mut n);
+        if n > 1 && extra.is_none() {
+            extra = Some(round);
+        }
+        if handle.disable(&token).is_ok() {
+            if kept.is_none() {
+                kept = Some(round);
+            }
+            handle.remove(token);
+        }
+        if lost.is_some() || extra.is_some() || kept.is_some() {
+            break;
+        }
+    }
+    drop(work_tx);
+    for t in threads {
+        let _ = t.join();
+    }
+    let f = |x: Option<usize>| x.map(|r| r.to_string()).unwrap_or_else(|| "-".into());
+    format!("rounds={} lost_ping={} extra_callback={} not_removed={}", rounds, f(lost), f(extra), f(kept))
+}
+
+pub fn run_stress() {
+    crate::for_each_line(|l| {
+        let r = std::panic::catch_unwind(|| run_stress_case(l)).unwrap_or_else(|_| "PANIC".to_string());
+        println!("{}", r);
+    });
+}
+
 pub fn run() {
     crate::for_each_line(|l| {
         let r = std::panic::catch_unwind(|| run_case(l)).unwrap_or_else(|_| "PANIC".to_string());
